@@ -1,4 +1,5 @@
 import bisect
+import copy
 import datetime
 import decimal
 import abc
@@ -190,6 +191,15 @@ class RepeatedValueWrapper(MutableSequence[_V], Generic[_M, _V]):
 
     def _check_type(self, v: Any) -> TypeGuard[_M]:
         return isinstance(v, self._raw_type)
+
+    def __deepcopy__(self, memo: dict[int, Any]) -> Self:
+        # A copy is a view of the copied list and has to follow that list's edits like the original follows its own.
+        clone = copy.copy(self)
+        clone._raw_wrapper = copy.deepcopy(self._raw_wrapper, memo)
+        clone._raw_indexes = list(self._raw_indexes)
+        clone._raw_wrapper.register_update_handler(
+            _RepeatedValueWrapperUpdateHandler(clone._raw_wrapper, self._raw_type, clone._raw_indexes))
+        return clone
 
     def __len__(self) -> int:
         return len(self._raw_indexes)
